@@ -63,6 +63,10 @@ func filterAbs(ctx stick.Context, val stick.Value, args ...stick.Value) stick.Va
 	return math.Abs(n)
 }
 
+// maxBatchSize bounds the items per batch: with a fill value the last batch is
+// padded up to that size, which for an absurd size (1e18) never ends.
+const maxBatchSize = 1000000
+
 // filterBatch takes 2 arguments and returns a batched version of val.
 // Value val must be a map, slice, or array. The filter has two optional arguments: number
 // of items per batch (defaults to 1), and the default fill value. If the
@@ -81,7 +85,7 @@ func filterBatch(ctx stick.Context, val stick.Value, args ...stick.Value) stick.
 		// TODO: This would trigger an E_WARNING in PHP.
 		return nil
 	}
-	if perSlice <= 1 {
+	if perSlice <= 1 || perSlice > maxBatchSize {
 		// TODO: This would trigger an E_WARNING in PHP.
 		return nil
 	}
